@@ -87,8 +87,9 @@ def gen_pipeline(rng, tables, nsteps, tags=None, exclude=(), stats=None, sc=None
         try:
             desc = describe(sc, {'calls': {}})
             names = [r['name'] for r in desc.get('resources', [])]
-            if len(set(names)) != len(names):
-                # e.g. an iterable appended after a deletion re-uses 'res_<n>': not a well-formed package (unique names are C02's business)
+            if len(set(names)) != len(names) and spec['step'] != 'iterable':
+                # e.g. sources() or a rename re-using a name: not a well-formed package (unique names are C02's business).
+                # An unnamed iterable must pick a free name itself (fixed defect c45c7a1): that candidate is kept, for the check to judge.
                 raise ValueError('duplicate resource names')
             added += 1
         except Exception:  # noqa  -> ill-typed candidate, discard
